@@ -24,7 +24,7 @@ func initMacroDefinitionNode() {
 			}
 
 			var argReturnType ast.TypeNode
-			if !args[3].IsUndefined() {
+			if !args[3].IsUndefined() && !args[3].IsNil() {
 				argReturnType = args[3].MustReference().(ast.TypeNode)
 			}
 
